@@ -242,6 +242,39 @@ func c14History(c *core.Ctx, env *idxEnv, r *rand.Rand, h int) {
 			c.Obs("events_calls", int64(len(bat)))
 		}
 	}
+	if h == 1 {
+		// index queue overflow: callbacks still come per id in mutation order, one per key-changing mutation
+		mu.Lock()
+		nBefore := len(recs)
+		mu.Unlock()
+		multi = true
+		ms, bs, as, maxOut := env.burst(r, ids[:6], n, 900)
+		env.qs.Flush()
+		multi = false
+		n += len(ms)
+		c.Max("max_outstanding_index_updates", maxOut)
+		c.Obs("burst_mutations", int64(len(ms)))
+		want := map[string][]string{}
+		for i, m := range ms {
+			if m.Err == "" && c14KeyChanged(bs[i], as[i]) {
+				want[m.ID] = append(want[m.ID], valUID(bs[i])+">"+valUID(as[i]))
+			}
+		}
+		got := map[string][]string{}
+		mu.Lock()
+		for _, g := range recs[nBefore:] {
+			got[g.ID] = append(got[g.ID], g.Before+">"+g.After)
+		}
+		mu.Unlock()
+		c.Eval(int64(len(ms)))
+		for _, id := range ids[:6] {
+			if strings.Join(got[id], " ") != strings.Join(want[id], " ") {
+				c.Violation("C14/callback-sequence:burst", fmt.Sprintf("burst of %d mutations (up to %d index updates outstanding): query-change callbacks for %s were %v, want %v (before>after of every key-changing mutation, in mutation order)", len(ms), maxOut, id, short(fmt.Sprint(got[id]), 300), short(fmt.Sprint(want[id]), 300)),
+					map[string]interface{}{"id": id, "got": got[id], "want": want[id], "typed": env.typed, "prefix": env.prefix, "max_outstanding": maxOut})
+			}
+		}
+		c.Distinct(fmt.Sprintf("%s/h%d/burst", c.Batch.Name, h))
+	}
 	c.Obs("mutations", int64(n))
 	if h == 0 {
 		c.Sample(map[string]interface{}{"typed": env.typed, "prefix": env.prefix, "history_head": hist[:minInt(6, len(hist))], "events_battery": bat[:4]})
